@@ -44,7 +44,7 @@ theorem hStartWorkflow_legal (c : Cfg) (s : State) (id : Nat) :
   · rename_i h
     have hw : s.wfStatus = .notStarted := by simpa using h
     split
-    · trivial
+    · exact effAll_quietB _ _ (by quiet_tac)
     · split
       · simp only [List.flatten_cons, List.flatten_nil, List.append_nil]
         exact effAll_write_then_quietB _ _ _ (legalEff_setWf _ _ (by simp [hw, Status.canTransition, Status.validNext])) (by quiet_tac)
